@@ -394,9 +394,15 @@ def run_grade(sx, name):
     return "graded" if ok else err
 
 
-def run_shape(sx, name, rotated, grade=False, ground=None):
+def run_shape(sx, name, rotated, grade=False, ground=None, placed=False):
     pl = Placement(sx, rotated, ground)
-    ents, info = build(name, pl)
+    if placed:
+        # built at the canonical placement and brought to k*Q*x + t by the library's own scale/rotate/translate:
+        # "any valid placement" also means a shape that was moved after it was created
+        ents, info = build(name, ConcretePlacement(sx))
+        ents = [_place_entity(e, pl) for e in ents]
+    else:
+        ents, info = build(name, pl)
     mesh = cb.Mesh()
     for e in ents:
         mesh.add(e)
@@ -449,6 +455,10 @@ def jobs(tier, seed):
             if rot and tier == "quick" and name not in ("Cylinder", "Frustum", "ExtrudedRing", "Elbow", "Revolve", "FourCoreDisk"):
                 continue
             js.append({"name": f"{name}|rotated={rot}", "fn": "run_shape", "params": {"name": name, "rotated": rot}})
+        if name in ("Cylinder", "Hemisphere", "RevolvedRing", "Elbow", "FourCoreDisk", "LJoint", "Revolve", "HalfSplineRing") or \
+                (tier == "thorough" and name not in ("ExtrudedStack", "RevolvedStack", "Wedge")):
+            js.append({"name": f"{name}|moved after construction", "fn": "run_shape",
+                       "params": {"name": name, "rotated": True, "placed": True}})
         for g in range(len(GROUND)):
             js.append({"name": f"{name}|ground placement {g}", "fn": "run_shape",
                        "params": {"name": name, "rotated": bool(g % 2 == 0), "ground": g}})
